@@ -13,6 +13,14 @@ open GlueVerif.C07Hub
 theorem seq_ok {σ} (s : σ) (k : σ → Out σ) : seq (s, [], .ok) k = k s := by
   simp [seq]
 
+theorem seq_nil_right {σ} (o : Out σ) : seq o (fun s => (s, [], .ok)) = o := by
+  unfold seq
+  split
+  · rename_i h
+    simp only [List.append_nil]
+    exact Prod.ext rfl (Prod.ext rfl h.symm)
+  · rfl
+
 theorem seq_assoc {σ} (o : Out σ) (k1 k2 : σ → Out σ) :
     seq (seq o k1) k2 = seq o (fun s => seq (k1 s) k2) := by
   unfold seq
